@@ -306,14 +306,15 @@ def run(ctx):
         ctx.count('hspace phase=%d' % desc['phase'])
         ctx.count('hspace levels=%d' % L); ctx.count('hspace dim=%d' % desc['dim'])
         smooth_sets_case(ctx, hs, desc, add)
-        if L < 2 or hs.numdofs > 30:
-            ctx.count('mg: skipped (single level or > 30 dofs)'); continue
+        if hs.numdofs > 30:
+            ctx.count('mg: skipped (> 30 dofs)'); continue
         tagp, Ps, _ = guarded(lambda: hs.virtual_hierarchy_prolongators())
         if tagp != 'ok':
             ctx.count('mg: prolongators ' + tagp); continue
         Pd = [np.asarray(P.todense(), dtype=float) for P in Ps]
         n = hs.numdofs
-        sizes = [Pd[0].shape[1]] + [P.shape[0] for P in Pd]
+        sizes = ([Pd[0].shape[1]] + [P.shape[0] for P in Pd]) if Pd else [n]      # a single level has no prolongators
+        ctx.count('mg levels=%d' % L)
         B = rng.integers(-1, 2, size=(n, n)).astype(float)
         B[rng.random((n, n)) < 0.6] = 0.0
         Ad = B @ B.T + np.diag(rng.integers(2, 5, size=n).astype(float))
@@ -358,7 +359,7 @@ def run(ctx):
                                              ' '.join(plist(ii) for ii in inds), SMOOTHERS.index(smoother), steps)
             add('%s %s %s' % (head, fl(x0), fl(f)),
                 ('mg', desc, strategy, smoother, steps, Ad, Pd, inds, x0, f, tag, x1, start == 0, nond, kappa))
-            ctx.case(('mg', it, desc['phase'], rep), nontrivial=(L >= 2))
+            ctx.case(('mg', it, desc['phase'], rep), nontrivial=True)
             ctx.count('mg smoother=' + smoother); ctx.count('mg strategy=' + strategy)
             # whole solve through solve_hmultigrid (glue + iterative_solve)
             if rep == 0 and smoother != 'exact':
@@ -584,7 +585,9 @@ def compare(ctx, r, g, m):
                     verdict = 'energy increased from %.12g to %.12g' % (float(e0), float(e1))
         if ok_model and verdict is None:
             return None
-        return ('mg-corr', ('local_mg_step disagrees with the model cycle' if not ok_model else 'local_mg_step') + ('; ' + verdict if verdict else ''),
+        key = 'mg-corr' if verdict is None else ('mg:fixed-point' if at_solution else 'mg:energy')
+        call['levels'] = len(inds)
+        return (key, ('local_mg_step (%d level%s) disagrees with the model cycle' % (len(inds), '' if len(inds) == 1 else 's') if not ok_model else 'local_mg_step') + ('; ' + verdict if verdict else ''),
                 call, verdict is not None)
     if op == 'mgsolve':
         _, desc, strategy, smoother, Ad, f, nond, tol, maxiter, tag, res, kappa = m
